@@ -62,7 +62,7 @@ def reach(snap, v, accept=lambda a, b, l: True):
     return seen
 
 
-def build_graph(rng, hd, cap, n, k, m, stale=False, data=True, tree=False, ids=None, labels=None, dangling=False):
+def build_graph(rng, hd, cap, n, k, m, stale=False, data=True, tree=False, ids=None, labels=None, dangling=False, many_groups=False):
     """ops that build a random digraph (cycles, shared targets, parallel edges)
     on handle hd inside the limits; returns (ops, vertices)"""
     labels = labels or SAFE_LABELS
@@ -83,6 +83,14 @@ def build_graph(rng, hd, cap, n, k, m, stale=False, data=True, tree=False, ids=N
         a, b = ids[0], ids[1]
         ops += ["ADD %s %d" % (hd, a), "ADD %s %d" % (hd, b), "BIND %s %d %d %s" % (hd, a, b, gen.lab_alpha(8)),
                 "BIND %s %d %d %s" % (hd, b, a, gen.lab_greek(0x3c3)), "PUT %s %d V0c" % (hd, b), "DATA %s %d" % (hd, b)]
+    if many_groups and cap - len(ids) >= 30:
+        # exactly 14 groups alive (the documented limit): 13 bystander pairs, the graph proper forms at most one more
+        rest = [v for v in range(cap) if v not in ids]
+        for j in range(13):
+            a, b = rest[2 * j], rest[2 * j + 1]
+            ops += ["ADD %s %d" % (hd, a), "ADD %s %d" % (hd, b), "BIND %s %d %d %s" % (hd, a, b, gen.lab_alpha(1))]
+            if rng.chance(1, 3):
+                ops.append("PUT %s %d %s" % (hd, b, gen.gen_data(rng)))
     for v in ids:
         ops.append("ADD %s %d" % (hd, v))
     used = {v: [] for v in ids}
@@ -140,6 +148,7 @@ def build_graph(rng, hd, cap, n, k, m, stale=False, data=True, tree=False, ids=N
 
 class C18(Prop):
     pid = "C18"
+    shrink_ok = False
     ops = CORE_OPS | {"XML", "DOT"}
     rule = ("random digraphs of up to 10 vertices (all label variants, no character that needs XML escaping, data in both "
             "representations, stale slots left behind by a collected group, never-added slots) exported with to_xml()/to_dot(); "
@@ -157,7 +166,8 @@ class C18(Prop):
             N = r.pick([2, 4, 16])
             cap = r.pick([6, 12, 20, 256])
             k = 1 + r.below(min(10, cap - 2))
-            ops1, ids = build_graph(r, "g", cap, N, k, r.below(2 * k + 1), stale=r.chance(1, 2), dangling=r.chance(1, 3))
+            ops1, ids = build_graph(r, "g", cap, N, k, r.below(2 * k + 1), stale=r.chance(1, 2), dangling=r.chance(1, 3),
+                                    many_groups=(cap == 256 and r.chance(1, 2)))
             ops = ["NEW g %d" % cap] + ops1
             # the same content again: other capacity, shuffled order, other representation of the data.
             # The content of g is computed by the steering tracker (present set, last edge per label, last datum);
@@ -282,9 +292,10 @@ class C20(Prop):
         for i in range(n):
             r = rng.fork()
             N = r.pick([1, 2, 4, 16])
-            cap = r.pick([4, 8, 14, 30])
+            cap = r.pick([4, 8, 14, 30, 256])
             k = 1 + r.below(min(12, cap))
-            ops1, ids = build_graph(r, "g", cap, N, k, r.below(3 * k + 1), stale=r.chance(1, 3), dangling=r.chance(1, 3))
+            ops1, ids = build_graph(r, "g", cap, N, k, r.below(3 * k + 1), stale=r.chance(1, 3), dangling=r.chance(1, 3),
+                                    many_groups=(cap == 256 and r.chance(1, 2)))
             ops = ["NEW g %d" % cap] + ops1 + ["SNAP g", "DEBUG g"]
             for v in ids:
                 ops += ["INSPECT g %d" % v, "VPRINT g %d" % v]
@@ -406,9 +417,10 @@ class C13(Prop):
         for i in range(n):
             r = rng.fork()
             N = r.pick([2, 3, 4, 16])
-            cap = r.pick([5, 9, 14, 20, 64])
+            cap = r.pick([5, 9, 14, 20, 64, 200, 256])
             k = 1 + r.below(min(14, cap))
-            ops1, ids = build_graph(r, "g", cap, N, k, r.below(3 * k + 1), stale=False, data=r.chance(1, 2))
+            ops1, ids = build_graph(r, "g", cap, N, k, r.below(3 * k + 1), stale=False, data=r.chance(1, 2),
+                                    many_groups=(cap >= 64 and r.chance(1, 3)))
             ops = ["NEW g %d" % cap] + ops1 + ["SNAP g"]
             edges = [(o.split()[2], o.split()[3], o.split()[4]) for o in ops1 if o.startswith("BIND")]
             for j in range(3):
@@ -472,6 +484,9 @@ class C13(Prop):
 
 # ------------------------------------------------------------------ C11 / C12
 
+MERGE_DATA = ["V0102030405060708090a", "B0102000000000000:2", "V", "Vaabbccddeeff00112233445566", "B0807060504030201:8"]
+
+
 def tree_ops(rng, hd, cap, n, size, labels, ids=None, data_p=(1, 2)):
     """ops building a random tree; returns (ops, root, ids, parent map)"""
     if ids is None:
@@ -491,7 +506,8 @@ def tree_ops(rng, hd, cap, n, size, labels, ids=None, data_p=(1, 2)):
         ops.append("BIND %s %d %d %s" % (hd, p, v, a))
     for v in ids:
         if rng.chance(*data_p):
-            ops.append("PUT %s %d %s" % (hd, v, gen.gen_data(rng)))
+            # a small pool of values, so that the two trees often carry identical bytes at corresponding vertices
+            ops.append("PUT %s %d %s" % (hd, v, rng.pick(MERGE_DATA) if rng.chance(2, 3) else gen.gen_data(rng)))
     return ops, ids[0], kept, [v for v in ids if v not in kept]
 
 
@@ -502,6 +518,9 @@ def merge_history(rng, hid, extras):
     N = rng.pick([4, 8, 16])
     cap = rng.pick([16, 24, 40])
     lsize, rsize = 1 + rng.below(5), 1 + rng.below(5)
+    big = (not extras) and rng.chance(1, 12)
+    if big:
+        N, cap = 16, 64
     # half of the left graphs have a past: a group on low ids (with edges under the merge labels and data) that was
     # collected, so that the ids merge() obtains from next_id() are recycled slots with stale content
     stale, stale_ids = [], []
@@ -515,6 +534,20 @@ def merge_history(rng, hid, extras):
     lids = [pool.pop(rng.below(len(pool))) for _ in range(lsize)]
     lops, lroot, lkept, liso = tree_ops(rng, "g", cap, N, lsize, MERGE_LABELS, ids=lids)
     lops = stale + lops
+    if big:
+        # a left tree with exactly 14 groups alive: 14 pairs bound first, then hung under a root (29 vertices)
+        stale, stale_ids, liso = [], [], []
+        root = 60
+        lops = []
+        for j in range(14):
+            a, b = 2 * j, 2 * j + 1
+            lops += ["ADD g %d" % a, "ADD g %d" % b, "BIND g %d %d %s" % (a, b, MERGE_LABELS[j % 4])]
+        lops.append("ADD g %d" % root)
+        for j in range(14):
+            lops.append("BIND g %d %d %s" % (root, 2 * j, gen.lab_alpha(20 + j)))
+        for v in (1, 4, 9):
+            lops.append("PUT g %d %s" % (v, rng.pick(MERGE_DATA)))
+        lkept = [root] + list(range(28))
     rops, rroot, rkept, riso = tree_ops(rng, "r", cap, N, rsize, MERGE_LABELS)
     ops = ["NEW g %d" % cap] + lops + ["NEW r %d" % cap] + rops
     # isolated left vertices are fine (the left graph need only be a tree below `left`);
@@ -544,7 +577,7 @@ def merge_history(rng, hid, extras):
     # a datum of the left tree that has been read already while its group lives on (another member still unread)
     with_data = [int(o.split()[2]) for o in lops if o.startswith("PUT")]
     grouped_with_data = [v for v in dict.fromkeys(with_data) if v in lkept]
-    if len(lkept) >= 2 and len(grouped_with_data) >= 2 and rng.chance(1, 2):
+    if not big and len(lkept) >= 2 and len(grouped_with_data) >= 2 and rng.chance(1, 2):       # (a small tree is one group)
         idx = ops.index("NEW r %d" % cap)
         ops.insert(idx, "DATA g %d" % rng.pick(grouped_with_data))
     left = rng.pick(lkept)
@@ -613,6 +646,7 @@ class MergeProp(Prop):
 
 class C12(MergeProp):
     pid = "C12"
+    shrink_ok = False
     rule = ("right graphs made of a random tree of 1..5 vertices plus 0..3 extras (isolated present vertices with and "
             "without data, detached two-vertex sub-trees), random left trees, every choice of `left`, `right` = the root or an "
             "inner vertex of the tree; oracle: Ok only if every present vertex of the right graph is reachable from `right`; "
@@ -651,6 +685,7 @@ class C12(MergeProp):
 
 class C11(MergeProp):
     pid = "C11"
+    shrink_ok = False
     rule = ("pairs of random trees (1..5 vertices each, labels from a 4-element pool so that paths overlap, data placed at "
             "random on both sides, arbitrary ids, every choice of `left`), then reads of every datum; oracle on the "
             "implementation's snapshots before/after: Ok; every labelled path of the right tree exists from `left` and ends on "
@@ -675,6 +710,8 @@ class C11(MergeProp):
             if res != "ok":
                 return {"reason": "merge of two trees returned %s" % res, "index": i, "expected": "ok", "observed": res}
             left, right = int(t[3]), int(t[4])
+            if slot(g0, left)["branch"] == 0 or slot(r0, right)["branch"] == 0:
+                continue       # `left` / `right` must be present vertices of their trees: outside the quantifier, no claim
             # walk the right tree, mapping onto the merged left graph
             phi, new_needed = {right: left}, 0
             todo = [(right, left, left)]     # right vertex, image in g1, image in g0 (or None if the path was lacking)
@@ -787,6 +824,7 @@ def reachable_graph_history(rng, hid, length=None, **kw):
 
 class C08(Prop):
     pid = "C08"
+    shrink_ok = False
     ops = CORE_OPS | {"SAVE", "LOAD"}
     rule = ("graphs reached by random histories (groups with unread data, read and unread vertices, heap and inline data "
             "with non-zero padding, 2/3/4-byte label characters, collected slots) are saved and loaded; (i) the bytes written "
@@ -800,8 +838,11 @@ class C08(Prop):
         hs = []
         for i in range(n):
             r = rng.fork()
-            h0 = reachable_graph_history(r, "c08-%d" % i)
-            ops = [o for o in h0.ops if not o.startswith(("KEYS", "KIDS"))]
+            if i % 6 == 5:
+                h0 = gen.boundary_history(r, "c08-%d" % i)       # exactly 14 groups / 16 members / N labels at save time
+            else:
+                h0 = reachable_graph_history(r, "c08-%d" % i)
+            ops = [o for o in h0.ops if not o.startswith(("KEYS", "KIDS", "KID "))]
             k = len(ops)
             ops += ["SAVE g img", "LOAD img h"]
             cont = gen.core_history(r.fork(), "x", n=h0.n, cap=h0.meta["cap"], length=r.pick([8, 20, 40]), observers=False,
@@ -1049,6 +1090,7 @@ def render_script(rng, cmds, fancy=True):
 
 class C14(Prop):
     pid = "C14"
+    shrink_ok = False
     ops = CORE_OPS | {"SCRIPT"}
     rule = ("random programs of 2..11 ADD/BIND/PUT commands over literal ids and $variables inside the limits, rendered with "
             "random legal formatting (white-space runs of space/tab/CR/LF, # comments, nu-prefixes, blanks before the "
@@ -1228,6 +1270,7 @@ class C07(SpecProp):
 
 class C19(SpecProp):
     pid = "C19"
+    shrink_ok = False
     rule = ("histories inside the limits of a small configuration (N = the labels actually needed, capacity = the highest id "
             "+ 1) are replayed under 4 configurations (N up to 16, capacity up to 256) and, in the same run, in 3 separate "
             "harness processes (fresh hash seeds); oracle: the result of every call (incl. kids() order, next_id() ids, "
